@@ -8,8 +8,13 @@
 static const time_t T0 = 1700000000;
 static unsigned char K32[32];
 
-enum { CF_NOKEY, CF_HS, CF_RS, CF_ES, CF_ED, CF_ES384, CF_ES512, CF_ED448, CF_PS, NCF };
-static const char *cf_name[NCF] = { "no-key", "HS256+oct32", "RS256+rsa2048", "ES256+P-256", "EdDSA+ed25519", "ES384+P-384", "ES512+P-521", "EdDSA+ed448", "PS256+rsa2048" };
+/* the last five are configurations setkey accepts although key and algorithm do not go together (same size, other curve or
+ * key type; an RSA-PSS key under RS256; a curve one provider cannot import): what they accept is C02's and C09's business,
+ * here they are the way into each provider's key-import and refusal paths, which must be as clean as the accepting ones */
+enum { CF_NOKEY, CF_HS, CF_RS, CF_ES, CF_ED, CF_ES384, CF_ES512, CF_ED448, CF_PS, CF_ES_K256, CF_ESK_P256, CF_ED_P256, CF_RS_PSSKEY, CF_ES_BP256, NCF };
+#define NCF_MATCHED CF_ES_K256
+static const char *cf_name[NCF] = { "no-key", "HS256+oct32", "RS256+rsa2048", "ES256+P-256", "EdDSA+ed25519", "ES384+P-384", "ES512+P-521", "EdDSA+ed448", "PS256+rsa2048",
+				    "ES256+secp256k1", "ES256K+P-256", "EdDSA+P-256", "RS256+rsa-pss-2048", "ES256+brainpoolP256r1" };
 static jwk_set_t *cf_set[NCF];
 static jwt_checker_t *cf_chk[NCF];
 static char *VALID[NCF];       /* one valid token per configuration */
@@ -26,8 +31,14 @@ static void setup(void)
 	t = vk_jwk_text(vk_get("p521"), 0, NULL, NULL); cf_set[CF_ES512] = jwks_create(t); free(t);
 	t = vk_jwk_text(vk_get("ed448"), 0, NULL, NULL); cf_set[CF_ED448] = jwks_create(t); free(t);
 	t = vk_jwk_text(vk_get("rsa2048a"), 0, NULL, NULL); cf_set[CF_PS] = jwks_create(t); free(t);
-	static const jwt_alg_t algs[NCF] = { JWT_ALG_NONE, JWT_ALG_HS256, JWT_ALG_RS256, JWT_ALG_ES256, JWT_ALG_EDDSA, JWT_ALG_ES384, JWT_ALG_ES512, JWT_ALG_EDDSA, JWT_ALG_PS256 };
-	static const char *keyn[NCF] = { NULL, NULL, "rsa2048a", "p256a", "ed25519a", "p384", "p521", "ed448", "rsa2048a" };
+	t = vk_jwk_text(vk_get("k256"), 0, NULL, NULL); cf_set[CF_ES_K256] = jwks_create(t); free(t);
+	t = vk_jwk_text(vk_get("p256a"), 0, NULL, NULL); cf_set[CF_ESK_P256] = jwks_create(t); free(t);
+	t = vk_jwk_text(vk_get("p256a"), 0, NULL, NULL); cf_set[CF_ED_P256] = jwks_create(t); free(t);
+	t = vk_jwk_text(vk_get("rsapss2048"), 0, NULL, NULL); cf_set[CF_RS_PSSKEY] = jwks_create(t); free(t);
+	t = vk_jwk_text(vk_get("bp256r1"), 0, NULL, NULL); cf_set[CF_ES_BP256] = jwks_create(t); free(t);
+	static const jwt_alg_t algs[NCF] = { JWT_ALG_NONE, JWT_ALG_HS256, JWT_ALG_RS256, JWT_ALG_ES256, JWT_ALG_EDDSA, JWT_ALG_ES384, JWT_ALG_ES512, JWT_ALG_EDDSA, JWT_ALG_PS256,
+					     JWT_ALG_ES256, JWT_ALG_ES256K, JWT_ALG_EDDSA, JWT_ALG_RS256, JWT_ALG_ES256 };
+	static const char *keyn[NCF] = { NULL, NULL, "rsa2048a", "p256a", "ed25519a", "p384", "p521", "ed448", "rsa2048a", "k256", "p256a", "p256a", "rsapss2048", "bp256r1" };
 	rc_rng_reseed(606);
 	for (int c = 0; c < NCF; c++) {
 		cf_chk[c] = jwt_checker_new();
@@ -48,12 +59,14 @@ static void setup(void)
 		} else {
 			unsigned char *sig;
 			size_t sl;
-			rc_sign(vk_get(keyn[c]), algs[c], input, strlen(input), &sig, &sl);
+			if (rc_sign(vk_get(keyn[c]), algs[c], input, strlen(input), &sig, &sl))
+				rc_sign(vk_get(keyn[c]), JWT_ALG_ES256, input, strlen(input), &sig, &sl);   /* EdDSA+P-256: what the key can make */
 			VALID[c] = tok_attach(input, sig, sl);
 			free(sig);
 		}
 		free(input);
-		if (jwt_checker_verify(cf_chk[c], VALID[c])) {
+		/* (for the mismatched configurations VALID is only a token that reaches the provider; whether it is accepted is not asked here) */
+		if (jwt_checker_verify(cf_chk[c], VALID[c]) && c < NCF_MATCHED) {
 			fprintf(stderr, "parse: the valid token for %s is rejected: %s\n", cf_name[c], jwt_checker_error_msg(cf_chk[c]));
 			exit(2);
 		}
@@ -85,10 +98,26 @@ static const char *must_reject(const char *tok)
 static void probe(int cf, const char *tok)
 {
 	jwt_checker_t *c = cf_chk[cf];
-	long live0 = vk_live();
+	long live0 = vk_live(), heap0 = vf_heap_live();
 	int r = jwt_checker_verify(c, tok);
-	long live1 = vk_live();
+	long live1 = vk_live(), heap1 = vf_heap_live();
 	n_verify++;
+	if (heap1 > heap0 && live1 == live0) {
+		/* the process heap as a whole (GnuTLS, nettle and gmp allocate outside both accounted allocators): a leak grows it on every
+		 * call, a table filled on first use or the 16-entry error ring of libcrypto stops growing */
+		n_leakchk++;
+		long h = heap1, grew = 0;
+		for (int i = 0; i < 40; i++) {
+			jwt_checker_verify(c, tok);
+			ERR_clear_error();
+			long h2 = vf_heap_live();
+			grew += h2 > h;
+			h = h2;
+		}
+		if (grew == 40 && nv++ < 30)
+			vf_violation("leak|process-heap", "config %s: every verify leaves %ld more block(s) on the process heap (none of them from jwt_set_alloc or libcrypto) on %s",
+				     cf_name[cf], (h - heap1) / 40, vf_esc(tok));
+	}
 	if (live1 != live0) {
 		/* confirm: a leak repeats on every call, a cache fill inside libcrypto does not */
 		n_leakchk++;
@@ -309,6 +338,8 @@ static void enumerate(void)
 	rc_rng_install();
 	lj_select_provider(vf_param & 1);
 	vf_now = T0;
+	vk_load_extra();
+	vf_heap_live();
 	setup();
 	pools();
 
